@@ -80,6 +80,11 @@ func c15Unzip(c *Ctx) {
 	}
 	c.check("unzip.err-of-checked-files", f.Name, f.Body.Pos(), okCf || (zipReturnsErr && len(cfErr) == 0), "cf.Err() must be called on the CheckedFiles returned by CheckZip")
 
+	// What CheckZip treats as a directory entry (skipping the size limits and
+	// the Valid list) must be what Unzip skips: otherwise an entry is
+	// extracted without having been size-checked.
+	c15DirPredicateAgrees(c, f, zVar)
+
 	// destination = filepath.Join(dir, name) where name comes from ranging z.File
 	head, _, rs := g.rangeLoop(func(rs *ast.RangeStmt) bool {
 		sel, ok := ast.Unparen(rs.X).(*ast.SelectorExpr)
@@ -99,6 +104,116 @@ func c15Unzip(c *Ctx) {
 		c.check("unzip.destination-under-dir", fmt.Sprintf("%s#%s", f.Name, nm), g.pos(id), ok,
 			"the file created must be filepath.Join(dir, <entry>.Name) for the entry being extracted (a checked name under the target directory)")
 	}
+}
+
+// c15DirPredicateAgrees compares the definition of CheckZip's isDir (the
+// value handed to collisions.check and tested before the size accounting)
+// with the condition under which Unzip skips an entry.
+func c15DirPredicateAgrees(c *Ctx, unzip *Fn, zVar types.Object) {
+	cz := c.fn("mod/modzip", "CheckZip")
+	ci := cz.Info()
+	// canonical form with the loop variable's Name field as the only free term
+	var canon func(f *Fn, e ast.Expr, d int) string
+	canon = func(f *Fn, e ast.Expr, d int) string {
+		info := f.Info()
+		e = ast.Unparen(e)
+		if tv, ok := info.Types[e]; ok && tv.Value != nil {
+			return tv.Value.ExactString()
+		}
+		switch x := e.(type) {
+		case *ast.Ident:
+			o := identObj(info, x)
+			var def ast.Expr
+			n := 0
+			ast.Inspect(f.Body, func(nd ast.Node) bool {
+				if as, ok := nd.(*ast.AssignStmt); ok && as.Tok.String() == ":=" {
+					for i, l := range as.Lhs {
+						if identObj(info, l) == o && len(as.Rhs) == len(as.Lhs) {
+							def = as.Rhs[i]
+							n++
+						}
+					}
+				}
+				return true
+			})
+			if n == 1 && d < 5 {
+				return canon(f, def, d+1)
+			}
+			return x.Name
+		case *ast.SelectorExpr:
+			if t := info.TypeOf(x.X); t != nil && strings.HasSuffix(typeKey(t), "archive/zip.File") {
+				return "ENTRY." + x.Sel.Name
+			}
+			return canon(f, x.X, d+1) + "." + x.Sel.Name
+		case *ast.CallExpr:
+			var args []string
+			for _, a := range x.Args {
+				args = append(args, canon(f, a, d+1))
+			}
+			nm := calleeName(info, x)
+			if nm == "" {
+				nm = canon(f, x.Fun, d+1)
+			}
+			if sel, ok := ast.Unparen(x.Fun).(*ast.SelectorExpr); ok {
+				if s := info.Selections[sel]; s != nil {
+					args = append([]string{canon(f, sel.X, d+1)}, args...)
+				}
+			}
+			return nm + "(" + strings.Join(args, ",") + ")"
+		}
+		return exprString(e)
+	}
+	var isDirDef string
+	ast.Inspect(cz.Body, func(n ast.Node) bool {
+		call, ok := n.(*ast.CallExpr)
+		if ok && calleeName(ci, call) == mz+"collisionChecker.check" && len(call.Args) == 2 {
+			isDirDef = canon(cz, call.Args[1], 0)
+		}
+		return true
+	})
+	// Unzip: the condition of the `continue` at the top of the extraction loop
+	var skip []string
+	ui := unzip.Info()
+	ast.Inspect(unzip.Body, func(n ast.Node) bool {
+		rs, ok := n.(*ast.RangeStmt)
+		if !ok {
+			return true
+		}
+		sel, ok := ast.Unparen(rs.X).(*ast.SelectorExpr)
+		if !ok || sel.Sel.Name != "File" || identObj(ui, sel.X) != zVar {
+			return true
+		}
+		for _, st := range rs.Body.List {
+			ifs, ok := st.(*ast.IfStmt)
+			if !ok || len(ifs.Body.List) != 1 {
+				continue
+			}
+			if br, ok := ifs.Body.List[0].(*ast.BranchStmt); !ok || br.Tok.String() != "continue" {
+				continue
+			}
+			var split func(e ast.Expr)
+			split = func(e ast.Expr) {
+				e = ast.Unparen(e)
+				if be, ok := e.(*ast.BinaryExpr); ok && be.Op.String() == "||" {
+					split(be.X)
+					split(be.Y)
+					return
+				}
+				skip = append(skip, canon(unzip, e, 0))
+			}
+			split(ifs.Cond)
+		}
+		return true
+	})
+	ok := isDirDef != "" && len(skip) > 0
+	found := false
+	for _, sk := range skip {
+		if sk == isDirDef {
+			found = true
+		}
+	}
+	c.check("unzip.dir-predicate-agrees", unzip.Name, unzip.Body.Pos(), ok && found,
+		fmt.Sprintf("CheckZip classifies an entry as a directory by %s (no size limits, not in Valid); Unzip must skip exactly such entries, it skips on %v", isDirDef, skip))
 }
 
 // c15CheckZipReturnsErr: every return of CheckZip after its validation loop
